@@ -20,6 +20,7 @@ RULE = (
     "variable bound at an enclosing level (the configuration in which confusion changes the answer); distinct by "
     "expression tree. layout: two nested levels (each reverse or forward) through ravel / reshape / flatten with order 'A' / 'K' of a "
     "C-, Fortran- or transposed-storage array that depends on the variables of both levels, against the closed form."
+    ' nested_nary: one operation on three operands of different levels; vector3: three levels around a matrix product, the innermost differentiation closing over both enclosing levels, the outer-level operand optionally passed through array-method identities and the product optionally checkpointed.'
 )
 
 MODES = ["grad", "deriv", "jac", "vjp", "jvp", "egrad", "vag", "hvp_like"]
